@@ -730,6 +730,10 @@ func (fv *FnV) builtin(st *State, ins ssa.Instruction, b *ssa.Builtin, cc *ssa.C
 			return &SV{v: Val{ite(c, x.T, y.T), x.S}, typ: cc.Args[0].Type()}, nil
 		}
 	}
+	if b.Name() == "close" {
+		fv.channelOp(st, "close of a channel", pos)
+		return &SV{typ: cc.Signature().Results()}, nil
+	}
 	panic(unsupported("builtin " + b.Name()))
 }
 
